@@ -159,7 +159,7 @@ theorem image_step4 (m : Mgr) (ext : Nat → Nat) (h : Good3 m ext) (t s : Int)
   split
   · next e heq =>
     exact step4_same h _ _ (fun he => qvarsByName_noSignal m.tbl q (by rw [heq]; cases he; rfl))
-  · exact tryToReorder_step4 ext _ (fun m0 hI hc => imageBody_totE t s _ _ fa m0 hI hc) m h _
+  · exact tryToReorder_step4 ext _ (fun m0 hI hc => imageBody_totE_r4 t s _ _ fa m0 hI hc) m h _
 
 theorem preimage_step4 (m : Mgr) (ext : Nat → Nat) (h : Good3 m ext) (t s : Int)
     (rn : List (Key × Key)) (q : List Key) (fa : Bool) :
@@ -168,7 +168,7 @@ theorem preimage_step4 (m : Mgr) (ext : Nat → Nat) (h : Good3 m ext) (t s : In
   split
   · next e heq =>
     exact step4_same h _ _ (fun he => qvarsByName_noSignal m.tbl q (by rw [heq]; cases he; rfl))
-  · exact tryToReorder_step4 ext _ (fun m0 hI hc => preimageBody_totE t s _ _ fa m0 hI hc) m h _
+  · exact tryToReorder_step4 ext _ (fun m0 hI hc => preimageBody_totE_r4 t s _ _ fa m0 hI hc) m h _
 
 /-- `collect_garbage(roots)`, any roots -/
 theorem gcRooted_step4 (m : Mgr) (ext : Nat → Nat) (h : Good3 m ext) (rs : List Int) :
